@@ -100,6 +100,10 @@ func (r *Run) buildAndSolve(fns []*ssa.Function) {
 
 func (r *Run) Main() int {
 	fns := r.eng.FunctionsFor(r.prop)
+	if r.prop == "C08" {
+		r.eng.sweepMode = true
+		fns = r.eng.LockingFunctions()
+	}
 	r.buildAndSolve(fns)
 	if !r.debug {
 		return r.Report()
